@@ -106,13 +106,13 @@ def check_case(acc, alignment, s1, s2, sname, spec):
 
 
 def universe(tier):
-    L = 5 if tier == 'thorough' else 4
+    L = 6 if tier == 'thorough' else 4
     seqs = ['']
     for l in range(1, L + 1):
         seqs.extend(''.join(t) for t in itertools.product(ALPHA, repeat=l))
     for s1 in seqs:
         for s2 in seqs:
-            if len(s1) + len(s2) > (8 if tier == 'thorough' else 7):
+            if len(s1) + len(s2) > (9 if tier == 'thorough' else 7):
                 continue
             yield s1, s2
 
@@ -136,8 +136,8 @@ def run(ctx):
     return core.finish(
         PROP, ctx.tier, ctx.seed, acc,
         rule='all pairs of sequences over {A,B,C} with lengths 0..%d (sum capped) x 6 scorings (default, custom gap .5/2, dictionaries with asymmetric entries, max/min orientation) x all 6 traceback orders; '
-             'non-trivial = more than one optimal alignment or an optimal alignment needs an indel' % (5 if ctx.thorough else 4),
-        bounds={'alphabet': ALPHA, 'lengths': '0..%d (empty sequences on either side included)' % (5 if ctx.thorough else 4), 'scorings': [s[0] for s in scorings(ALPHA)],
+             'non-trivial = more than one optimal alignment or an optimal alignment needs an indel' % (6 if ctx.thorough else 4),
+        bounds={'alphabet': ALPHA, 'lengths': '0..%d, sum <= %d (empty sequences on either side included)' % ((6, 9) if ctx.thorough else (4, 7)), 'scorings': [s[0] for s in scorings(ALPHA)],
                 'orders': 'all 6 permutations of (diagonal, up, left)'},
         assumptions=['reference = explicit enumeration of every global alignment; column score = -substitution value for pairs, -gap for indels (the library\'s sign convention)',
                      'scoring values are dyadic, so sums are exact'],
